@@ -83,6 +83,9 @@ def genOps2 : List (String × R String) := [
         | none => .error .valueError
       let enc := fun (r s _n : Int) => Spec.derEncode r.toNat s.toNat
       pure (ansG hex (Gen.sign_input sign dec enc (atts.length - 1) (List.replicate 32 0) (ht : Int)))),
+  ("g:target", do
+      let bits ← nat
+      pure (ansG (fun (b : Bytes) => if b.length ≥ 32 then toString (Py.ofBE b) else "bad-width") (Gen.blockheader_target (bits : Int)))),
   ("g:hdr_parse", do
       let b ← bytes
       pure (ansG (fun (h : Py.PyHeader) => s!"{h.version} {hex h.previous_block_hash} {hex h.merkle_root} {h.timestamp} {h.target_bits} {h.nonce}")
